@@ -208,3 +208,18 @@ def write_evidence(ctx: Ctx, obligations: dict, n_viol: int, trusted_base: list[
     with open(tmp, "w") as fh:
         json.dump(ev, fh, indent=1, default=str)
     os.replace(tmp, os.path.join(d, f"{ctx.prop}.json"))
+
+
+def run_named_witness(entry) -> tuple[bool, str]:
+    """witness = {"fn": "F1", "file": "corpus/witnesses.py"}: run the function against the
+    implementation importable as `fieldcompare` (sys.path[0] is /repo)"""
+    import importlib.util
+    import contextlib
+    import io
+    w = entry["witness"]
+    spec = importlib.util.spec_from_file_location("fcv_witnesses", os.path.join(VERIF, w["file"]))
+    mod = importlib.util.module_from_spec(spec)
+    spec.loader.exec_module(mod)
+    with contextlib.redirect_stdout(io.StringIO()):
+        fails, detail = getattr(mod, w["fn"])()
+    return bool(fails), detail
